@@ -78,10 +78,24 @@ static GLine	*gloLineTbl;
 static FileName lastfname;
 static Length	lastlno, lastftell;
 
+/*
+ * The column saturates at its field width rather than carrying into the line number.
+ */
+# define SPOS_CNO_MAX	((1L << SPOS_CNO_NBITS) - 1)
+
+local ULong
+sposClampCno(long cno)
+{
+	if (cno < 0) return 0;
+	if (cno > SPOS_CNO_MAX) return SPOS_CNO_MAX;
+	return cno;
+}
+
 SrcPos
 sposOffset(SrcPos p, int c)
 {
-    return (((p >> SPOS_CNO_SHIFT)+c) << SPOS_CNO_SHIFT) | (p & SPOS_MAC_MASK);
+    ULong cno = sposClampCno((long) ((p & SPOS_CNO_MASK) >> SPOS_CNO_SHIFT) + c);
+    return (p & ~SPOS_CNO_MASK) | (cno << SPOS_CNO_SHIFT);
 }
 
 Bool
@@ -311,7 +325,7 @@ sposNew(FileName fname, Length flno, Length glno, Length cno)
 	  sposGrowGloLineTbl(fname, flno, glno);
 	
 
-	return sposSet(glno, cno);
+	return sposSet(glno, sposClampCno(cno));
 }
 
 void
@@ -332,7 +346,7 @@ sposGrowGloLineTbl(FileName fname, Length flno, Length glno)
 SrcPos
 sposGet(Length glno, Length cno)
 {
-	return sposSet(glno, cno);
+	return sposSet(glno, sposClampCno(cno));
 }
 
 FileName
